@@ -2,6 +2,8 @@
 
 package gtree
 
+import "context"
+
 func init() {
 	verifRegister("VerifC12Rows", VerifC12Rows)
 	verifRegister("VerifC12Empty", VerifC12Empty)
@@ -38,7 +40,7 @@ func VerifC12Rows() {
 	rows, allBlank := c12Rows()
 	w := newVerifWriter()
 	var err error
-	route := verifChoose("route", 0, 7)
+	route := verifChoose("route", 0, 9)
 	vfsReset()
 	vfsSeal()
 	calls := 0
@@ -60,6 +62,10 @@ func VerifC12Rows() {
 		err = VerifyFromMarkdown(&verifReader{lines: rows}, WithTargetDir(vfsTarget()))
 	case 7:
 		err = OutputFromMarkdown(w, &verifReader{lines: rows}, WithEncodeYAML())
+	case 8: // massive mode: a panic in any interpreted goroutine is a violation as well
+		err = OutputFromMarkdown(w, &verifReader{lines: rows}, WithMassive(context.Background()))
+	case 9:
+		err = WalkFromMarkdown(&verifReader{lines: rows}, func(*WalkerNode) error { calls++; return nil }, WithMassive(context.Background()))
 	}
 	verifReach("C12.returned")
 	if allBlank {
@@ -75,13 +81,15 @@ func VerifC12Rows() {
 // at tree level on every sequential entry point, both From-Markdown output routes.
 func VerifC12Empty() {
 	k := int(verifChoose("blankRows", 0, 3))
-	var rows []string
+	var rows, literal []string
 	for i := 0; i < k; i++ {
-		rows = append(rows, verifRow([]string{"", " ", "\t"}[verifChoose("ws", 0, 2)], 1, 0, ""))
+		ws := []string{"", " ", "\t"}[verifChoose("ws", 0, 2)]
+		rows = append(rows, verifRow(ws, 1, 0, ""))
+		literal = append(literal, ws) // massive mode: the splitter looks at the first byte, the rows are given as bytes
 	}
 	w := newVerifWriter()
 	var err error
-	route := verifChoose("route", 0, 8)
+	route := verifChoose("route", 0, 10)
 	vfsReset()
 	vfsSeal()
 	calls := 0
@@ -105,6 +113,10 @@ func VerifC12Empty() {
 		err = OutputFromMarkdown(w, &verifReader{lines: rows}, WithEncodeTOML())
 	case 8:
 		err = Output(w, &verifReader{lines: rows}, WithEncodeYAML())
+	case 9:
+		err = OutputFromMarkdown(w, &verifReader{lines: literal}, WithMassive(context.Background()))
+	case 10:
+		err = MkdirFromMarkdown(&verifReader{lines: literal}, WithTargetDir(vfsTarget()), WithMassive(context.Background()))
 	}
 	verifAssert(err == nil, "C12.empty.nil")
 	verifAssert(len(w.out) == 0 && calls == 0 && vfsTouched() == 0, "C12.empty.nothing")
